@@ -213,8 +213,10 @@ func render(v ssa.Value, d int) string {
 	case *ssa.BinOp:
 		return "(" + render(v.X, d+1) + " " + v.Op.String() + " " + render(v.Y, d+1) + ")"
 	case *ssa.Call:
-		if s, ok := inlineHelperResult(v, 0, d); ok {
-			return s
+		if v.Call.Signature().Results().Len() == 1 {
+			if s, ok := inlineHelperResult(v, 0, d); ok {
+				return s
+			}
 		}
 		return renderCall(&v.Call, d)
 	case *ssa.Extract:
